@@ -549,6 +549,15 @@ theorem nq_flush {s : St} (h : NodupQ s) : NodupQ s.flushPending := by
   · simp [NodupQ]
   · exact h
 
+theorem nq_cloneAttr {s : St} (name uri value) (h : NodupQ s) : NodupQ (s.cloneAttribute name uri value).1 := by
+  unfold St.cloneAttribute
+  repeat' split
+  all_goals first
+    | exact h
+    | exact nq_ara _ _ _ h
+    | exact nq_ara _ _ _ (nq_ara _ _ _ h)
+    | exact nq_ara _ _ _ (nq_ara (s := s.unique.2) _ _ _ h)
+
 theorem nq_goAtts (atts : List Att) : ∀ (s : St) (vis : List QN), NodupQ s →
     NodupQ (St.copyNamespaceAttributes.goAtts s vis atts).1 := by
   induction atts with
@@ -594,13 +603,29 @@ theorem nq_cloneTree : (∀ (chain : List (List Att)) (s : St) (t : Src), NodupQ
     exact ih2 (ih1 h)
 
 
+theorem nq_execSetAttrs (env : Env) (as : List SetAttr) : ∀ (r : Run), NodupQ r.st → NodupQ (execSetAttrs env r as).st := by
+  induction as with
+  | nil => intro r h; exact h
+  | cons a as ih =>
+    intro r h
+    unfold execSetAttrs
+    exact ih _ (pending_attrs_nodup_qname [.elemAttribute a.name a.ns _ a.value] _ h)
+
+theorem nq_execSets (env : Env) (ks : List Nat) : ∀ (r : Run), NodupQ r.st → NodupQ (execSets env r ks).st := by
+  induction ks with
+  | nil => intro r h; exact h
+  | cons k ks ih =>
+    intro r h
+    unfold execSets
+    exact ih _ (nq_execSetAttrs env _ r h)
+
 theorem exec_nodup_both :
     (∀ (env : Env) (r : Run) (i : Instr), NodupQ r.st → NodupQ (exec env r i).st) ∧
       ∀ (env : Env) (r : Run) (b : Bool) (is : List Instr), NodupQ r.st → NodupQ (execList env r b is).st := by
   refine exec.mutual_induct
     (motive_1 := fun env r i => NodupQ r.st → NodupQ (exec env r i).st)
     (motive_2 := fun env r b is => NodupQ r.st → NodupQ (execList env r b is).st)
-    ?_ ?_ ?_ ?_ ?_ ?_ ?_ ?_ ?_ ?_ ?_ ?_ ?_ ?_
+    ?_ ?_ ?_ ?_ ?_ ?_ ?_ ?_ ?_ ?_ ?_ ?_ ?_ ?_ ?_ ?_ ?_ ?_
   all_goals (try dsimp only)
   · intro env r h; unfold exec; exact pending_attrs_nodup_qname [.characters] _ h
   · intro env r name ns value h; unfold exec
@@ -614,14 +639,18 @@ theorem exec_nodup_both :
     simp only [hsome]
     exact pending_attrs_nodup_qname [.endElement n] _
       (ih (pending_attrs_nodup_qname [.elemElementStart name ns _ _ _] _ h))
-  · intro env r name nsdecls atts excl body hnone h
+  · intro env r ks h
+    unfold exec
+    exact nq_execSets env ks r h
+  · intro env r name nsdecls atts excl use body hnone h
     unfold exec
     simp only [hnone]; exact h
-  · intro env r name nsdecls atts excl body h1 hsome ih h
+  · intro env r name nsdecls atts excl use body h1 hsome ih h
     unfold exec
     simp only [hsome]
     exact pending_attrs_nodup_qname [.endElement name] _
-      (ih (pending_attrs_nodup_qname [.lreStart name _ _, .addAtts _] _ h))
+      (ih (pending_attrs_nodup_qname [.addAtts _] _
+        (nq_execSets env use _ (pending_attrs_nodup_qname [.lreStart name _ _] _ h))))
   · intro env r k t chain hk h
     unfold exec
     simp only [hk]
@@ -634,6 +663,16 @@ theorem exec_nodup_both :
     simp only [hk]
     exact pending_attrs_nodup_qname [.endElement name] _ (ih (nq_cna _ (nq_clone _ _ _ _ h)))
   · intro env r k body hk h
+    unfold exec
+    simp only [hk]; exact h
+  · intro env r k name t chain hk a ha h
+    unfold exec
+    simp only [hk, ha]
+    exact nq_cloneAttr _ _ _ h
+  · intro env r k name t chain hk ha h
+    unfold exec
+    simp only [hk, ha]; exact h
+  · intro env r k name hk h
     unfold exec
     simp only [hk]; exact h
   · intro env r b h; unfold execList; exact h
@@ -661,5 +700,77 @@ produces a start tag with two attributes of one qname. -/
 theorem exec_pending_attrs_nodup_qname (env : Env) (r : Run) (b : Bool) (is : List Instr) (h : NodupQ r.st) :
     NodupQ (execList env r b is).st := exec_nodup_both.2 env r b is h
 
+
+
+/-! ## copied attribute nodes -/
+
+/-- **copied attribute nodes** after `C14-copied-attribute-prefix-declared.diff` (and the shadow repair): a namespaced
+attribute copied onto a pending element ends up with its local name and a prefix that the engine binds to the
+attribute's namespace — whether the source prefix was free, already right, or taken by another namespace. -/
+theorem copied_attribute_resolves_fixed (s : St) (name : QN) (uri value : String)
+    (hv : s.v.copyAttrNs = true) (hs : s.v.shadowCheck = true) (hpend : s.isElementPending = true)
+    (hu : uri ≠ "") (hx : uri ≠ xmlURI) (hx' : uri ≠ xmlnsURI) (hp : name.pfx ≠ "") (hctx : s.ns.createNew ≠ []) :
+    ∃ q : QN, ⟨q, value⟩ ∈ (s.cloneAttribute name uri value).1.pendAtts ∧ q.loc = name.loc ∧
+      (s.cloneAttribute name uri value).1.resultNs q.pfx = some uri := by
+  have plain : ∀ (t : St) (p : String) (fc : Bool), p ≠ "" → p ≠ "xmlns" →
+      t.addResultAttribute ⟨p, name.loc⟩ value fc = t.addAtt ⟨p, name.loc⟩ value := by
+    intro t p fc h0 h2
+    exact St.addResultAttribute_plain t ⟨p, name.loc⟩ value fc h2 (by intro e; injection e with e1 _; exact h0 e1)
+  have notxmlns : ∀ p, s.resultNs p = some uri → p ≠ "xmlns" := by
+    intro p hb e; subst e
+    simp [St.resultNs, RNS.nsForPrefix] at hb
+    exact hx' hb.symm
+  have invent : ∃ q : QN, ⟨q, value⟩ ∈ ((s.unique.2.addResultAttribute ⟨"xmlns", s.unique.1⟩ uri).addResultAttribute
+        ⟨s.unique.1, name.loc⟩ value).pendAtts ∧ q.loc = name.loc ∧
+      ((s.unique.2.addResultAttribute ⟨"xmlns", s.unique.1⟩ uri).addResultAttribute
+        ⟨s.unique.1, name.loc⟩ value).resultNs q.pfx = some uri := by
+    obtain ⟨j, hj⟩ := St.unique_prefix s
+    have hne := ns_prefix_ne (toString j)
+    rw [← hj] at hne
+    rw [plain _ _ _ hne.2.2 hne.2.1]
+    exact ⟨⟨s.unique.1, name.loc⟩, mem_addAttribute _ _ _, rfl,
+      St.resultNs_after_decl s.unique.2 s.unique.1 uri (by rw [St.unique_ns]; exact hctx) hne.1 hne.2.1⟩
+  unfold St.cloneAttribute
+  simp only [hpend, hu, hp, hx, hv, Bool.not_true, Bool.false_eq_true, if_false, Bool.or_self, decide_false]
+  cases hb : s.resultNs name.pfx with
+  | none =>
+    dsimp only
+    have h1 : name.pfx ≠ "xml" := by intro e; simp [St.resultNs, RNS.nsForPrefix, e] at hb
+    have h2 : name.pfx ≠ "xmlns" := by intro e; simp [St.resultNs, RNS.nsForPrefix, e] at hb
+    have e : (⟨name.pfx, name.loc⟩ : QN) = name := rfl
+    rw [← e, plain _ _ _ hp h2]
+    exact ⟨⟨name.pfx, name.loc⟩, mem_addAttribute _ _ _, rfl, St.resultNs_after_decl s name.pfx uri hctx h1 h2⟩
+  | some b =>
+    dsimp only
+    by_cases hbu : b = uri
+    · subst hbu
+      rw [if_pos rfl]
+      have e : (⟨name.pfx, name.loc⟩ : QN) = name := rfl
+      rw [← e, plain _ _ _ hp (notxmlns _ hb)]
+      exact ⟨⟨name.pfx, name.loc⟩, mem_addAttribute _ _ _, rfl, hb⟩
+    · rw [if_neg hbu]
+      cases hr : s.resultPrefix uri with
+      | none => exact invent
+      | some p2 =>
+        dsimp only
+        by_cases hp2 : p2 = ""
+        · simp only [hp2, ne_eq, not_true_eq_false, if_false]
+          exact invent
+        · simp only [ne_eq, hp2, not_false_eq_true, if_true]
+          have hb2 := prefix_lookup_sound_fixed s hs uri p2 hr
+          rw [plain _ _ _ hp2 (notxmlns _ hb2)]
+          exact ⟨⟨p2, name.loc⟩, mem_addAttribute _ _ _, rfl, hb2⟩
+
+/-- the tree as first analysed: the copied attribute keeps a prefix the result does not bind
+(`<out><xsl:copy-of select="//c/@q:x"/></out>`; replayed on the real library: C14-copied-attribute-prefix-not-declared) -/
+theorem copied_attribute_counterexample :
+    let s := run {} [.lreStart ⟨"", "out"⟩ [⟨"p", "urn:p"⟩] none]
+    (s.cloneAttribute ⟨"q", "x"⟩ "urn:p" "abc").1.pendAtts = [⟨⟨"xmlns", "p"⟩, "urn:p"⟩, ⟨⟨"q", "x"⟩, "abc"⟩] ∧
+      (s.cloneAttribute ⟨"q", "x"⟩ "urn:p" "abc").1.resultNs "q" = none := by decide
+
+example :
+    let s := run { v := { copyAttrNs := true, shadowCheck := true } } [.lreStart ⟨"", "o2"⟩ [⟨"z", "urn:other"⟩, ⟨"p", "urn:p"⟩] none]
+    (s.cloneAttribute ⟨"z", "y"⟩ "urn:z" "1").1.pendAtts =
+      [⟨⟨"xmlns", "z"⟩, "urn:other"⟩, ⟨⟨"xmlns", "p"⟩, "urn:p"⟩, ⟨⟨"xmlns", "ns0"⟩, "urn:z"⟩, ⟨⟨"ns0", "y"⟩, "1"⟩] := by decide
 
 end XalanModel.Props.C14
